@@ -29,7 +29,7 @@ Definition find_scope_blocks_indices (h : range) (blocks : list range) : list na
   | None => []
   | Some body =>
       if r_contains body h then
-        map fst (filter (fun ib => r_contains body (snd ib)) (number_from O blocks))
+        map fst (filter (fun ib => Nat.leb (snd h) (fst (snd ib)) && r_contains body (snd ib)) (number_from O blocks))
       else
         map fst (filter (fun ib => Nat.leb (snd h) (fst (snd ib)) && r_overlaps body (snd ib)) (number_from O blocks))
   end.
